@@ -143,7 +143,7 @@ def _record(kind, idx, meta):
         i.model_name = np.array(['grid_model_with_all_its_parameters_spelled_out_' + c_ for c_ in 'cab'][:n])
     else:
         i.model_name = np.array(['model_c', 'model_a', 'model_b'][:n], dtype='U30') if 'P' not in kind else np.array(['model_c    ', 'model_a    ', 'model_b    '][:n], dtype='U30')
-    i.model_fluxes = (np.arange(n * 3, dtype=float).reshape(n, 3) + 0.5 * idx) if 'm' in kind else None
+    i.model_fluxes = ((np.arange(n * 3, dtype=float).reshape(n, 3) + 0.5 * idx) / 3.0) if 'm' in kind else None          # thirds: not representable in single precision
     i.meta.model_dir, i.meta.filters, i.meta.extinction_law = meta
     return i
 
